@@ -447,7 +447,7 @@ def check_liveness(pid, r, sc, skip=()):
     out = []
     if r.failure:
         roles = sorted(set((t.get("role") or "?").split(":")[0] for t in (r.failure_info or []))) if r.failure == "stuck" else []
-        out.append(C.v("liveness", "%s/run-%s/%s" % (pid, r.failure, "+".join(roles)), "run ended %s: %s" % (r.failure, r.failure_info)))
+        out.append(C.v("liveness", "%s/run-%s/%s" % (pid, r.failure, C.hang_where(r)), "run ended %s: %s" % (r.failure, r.failure_info)))
         return out
     done = r.obs.get("scripts_done_t")
     bound = r.obs.get("bound")
